@@ -116,6 +116,30 @@ def run(c, chk):
                         if x[0] == 'ld' and any(fp_.is_null_assumption(cn, t) and fp_.is_null_assumption(cn, t)[0] == e.res and not fp_.is_null_assumption(cn, t)[1]
                                                 for cn, t, _ in p.assume):
                             member[sym.norm(x)] = e.args[0][1]
+                # span idiom: n = strcspn(str, SET); fwrite(str, 1, n); then "\\%c" of str[n] - the stretch holds no byte of SET
+                # (strcspn), the byte behind it is one of SET or the terminator (which the guard excludes)
+                spans = [e for e in p.events if e.kind == 'call' and e.name == 'strcspn' and len(e.args) > 1 and e.args[1][0] == 'str']
+                if spans:
+                    rest = []
+                    for t in toks:
+                        ev = t[-1]
+                        sp = next((e for e in spans if ev is not None and getattr(ev, 'kind', None) == 'call'), None)
+                        if t[0] == 'arg' and ev is not None and ev.name == 'fwrite' and any(sym.norm(ev.args[0]) == sym.norm(e.args[0]) and outmodel._strip(ev.args[2]) == e.res
+                                                                                          and ev.args[1] == ('c', 1) for e in spans):
+                            raw_c = True
+                            continue
+                        rest.append(t)
+                    if len(rest) == 2 and rest[0][0] == 'lit' and rest[0][1] == '\\' and rest[1][0] == 'arg' and rest[1][1] == '%c':
+                        v_ = outmodel._strip(rest[1][2])
+                        for e in spans:
+                            if v_[0] == 'ld' and sym.norm(v_[1]) == sym.norm(('idx', e.args[0], e.res)):
+                                for ch_ in e.args[1][1]:
+                                    esc[ord(ch_)] = '\\' + ch_
+                                rest = []
+                                break
+                    if not rest:
+                        continue
+                    toks = rest if len(rest) != len(toks) else toks
                 byte = None
                 form = ''
                 setform = None
@@ -209,6 +233,12 @@ def run(c, chk):
             if p.end != 'ret':
                 continue
             toks = outmodel.tokens(p.events, calls=PRINT_CALLS)
+            # a stretch written with fwrite(str, 1, strcspn(str, SET)) holds no byte of SET: where SET covers the reader's
+            # special bytes it is plain text, not a raw %s
+            spans = {e.res: e for e in p.events if e.kind == 'call' and e.name == 'strcspn' and len(e.args) > 1 and e.args[1][0] == 'str'}
+            toks = [t for t in toks if not (t[0] == 'arg' and t[-1] is not None and t[-1].name == 'fwrite' and outmodel._strip(t[-1].args[2]) in spans and
+                                            sym.norm(spans[outmodel._strip(t[-1].args[2])].args[0]) == sym.norm(t[-1].args[0]) and
+                                            all(chr(b) in spans[outmodel._strip(t[-1].args[2])].args[1][1] for b in special))]
             text, index = outmodel.render(toks)
             m = re.search(r'"[^"\x00]*%s[^"\x00]*"', text)
             if m:
